@@ -50,6 +50,7 @@ CONSTANTS
     Bug,            \* "none" = the rules; other values = deliberately broken rules that TLC must refute
     \* ---- cache machine
     CNIn, CNOut,    \* shape of the one transaction object
+    CIdx,           \* the inputs whose digests are requested (subset of 0..CNIn-1)
     CModes,         \* modes of the requests
     CHT,            \* hash-type bytes of the requests
     NThreads,       \* 1..2
@@ -332,12 +333,25 @@ Threads  == 1..NThreads
 Nil      == F("nil")
 Zero     == F("zerohash")
 Zero4    == FH("tapsingles", <<Zero, Zero, Zero, Zero>>)
-Requests == {[mode |-> m, idx |-> i, lo |-> l] : m \in CModes, i \in 0..(CNIn - 1), l \in CHT}
+Requests == {[mode |-> m, idx |-> i, lo |-> l] : m \in CModes, i \in CIdx \cap (0..(CNIn - 1)), l \in CHT}
 RQ(r)    == Q(r.mode, CNIn, CNOut, r.idx, <<r.lo, 0>>, KeyScript, FALSE, IF r.mode = "bip341" THEN "key" ELSE "bare", FALSE)
 Fresh(r) == Preimage(RQ(r))                    \* the uncached definition
 NoReq    == [mode |-> "none", idx |-> 0, lo |-> 0]
 Locked   == Bug # "nolock"
-
+\* "lock_if_nil": TaprootSigHash takes hashLock only while one of its two cache pointers is nil ("the lock only
+\* guards filling the caches") - broken, because tapSingleHashes is published before it is filled
+TakesLock(r) == IF Bug = "lock_if_nil" /\ r.mode = "bip341"
+                  THEN slot["tapSingleHashes"] = Nil \/ slot["tapOutSingleHash"] = Nil
+                  ELSE Locked
+\* the cache slots a request reads (and fills when they are nil); the other slots it never touches
+NeedSlots(r) == LET q == RQ(r) IN
+    CASE r.mode = "bip143" -> (IF ~Acp(q) THEN {"hashPrevouts"} ELSE {})
+                              \cup (IF ~Acp(q) /\ Base(q) \notin {2, 3} THEN {"hashSequence"} ELSE {})
+                              \cup (IF Base(q) \notin {2, 3} THEN {"hashOutputs"} ELSE {})
+      [] r.mode = "bip341" -> IF Lo(q) \notin TapValid THEN {}
+                              ELSE (IF ~Acp(q) THEN {"tapSingleHashes"} ELSE {})
+                                   \cup (IF TapOut(q) \notin {2, 3} THEN {"tapOutSingleHash"} ELSE {})
+      [] OTHER -> {}
 CInit == /\ slot = [s \in {"hashPrevouts", "hashSequence", "hashOutputs", "tapSingleHashes", "tapOutSingleHash"} |-> Nil]
          /\ lock = 0
          /\ pc = [t \in Threads |-> "idle"]
@@ -354,8 +368,8 @@ Done(t, res)   == /\ last' = [t |-> t, req |-> cur[t], same |-> (res = Fresh(cur
                   /\ cur' = [cur EXCEPT ![t] = NoReq]
                   /\ lock' = IF lock = t THEN 0 ELSE lock
 Begin(t, r, l) == /\ pc[t] = "idle" /\ ndone + Cardinality({u \in Threads : pc[u] # "idle"}) < MaxReq
-                  /\ (Locked => lock = 0)
-                  /\ lock' = IF Locked THEN t ELSE lock
+                  /\ (TakesLock(r) => lock = 0)
+                  /\ lock' = IF TakesLock(r) THEN t ELSE lock
                   /\ cur' = [cur EXCEPT ![t] = r]
                   /\ Goto(t, l)
                   /\ UNCHANGED <<slot, loc, ndone, last>>
@@ -447,6 +461,8 @@ CacheTransparent == last.same
 \* hashLock: at most one thread is inside WitnessSigHash / TaprootSigHash
 MutualExclusion  == Locked => Cardinality({t \in Threads : pc[t] # "idle"}) <= 1 /\ (lock # 0 <=> \E t \in Threads : pc[t] # "idle")
 \* a filled slot holds the hash of ALL inputs / outputs and never changes again
+\* a slot is filled only by a request that needs it (the warm-up prefixes of the burst scenarios rely on this)
+FillsAreNeeded == [][\A s \in DOMAIN slot : (slot[s] = Nil /\ slot'[s] # Nil) => \E t \in Threads : s \in NeedSlots(cur[t])]_vars
 SlotsStable == [][\A s \in DOMAIN slot : (slot[s] \notin {Nil, Zero, Zero4}) => slot'[s] = slot[s]]_vars
 
 Init  == PInit /\ CInit
